@@ -281,7 +281,7 @@ Proof.
   subst env1.
   (* the body *)
   pose proof (bspec_all path prog loc fcd cbf G (frames g1) (Some (pk, r)) (S d) Hsm fuel IH allP (fun _ _ => Logic.I) (fun _ => Logic.I)
-                (ghost_all path prog loc fcd cbf G (frames g1) (Some (pk, r)) (S d) Hsm fuel IH) body b1 (rev (combine ps pk)) lr false None 0 0 k fuel (2 * length ps)
+                (ghost_all path prog loc fcd cbf (frames g1) (Some (pk, r)) (S d) Hsm fuel IH) body b1 (rev (combine ps pk)) lr false None 0 0 k fuel (2 * length ps)
                 a1 gq {| locals := [sc]; captured := cenv; cur := Some fv |} s1 B' rets (le_n _) Hkb Hb1 Hinb) as H.
   fold its in H.
   assert (Hlits : length its = length cb0) by (unfold cb0; rewrite <- (CI_strip its Hits) at 1; apply map_length).
@@ -442,7 +442,7 @@ Proof.
   fold env0 gP in HC0.
   assert (Hlits : length its = length cbm) by (unfold cbm; rewrite <- (CI_strip its Hits) at 1; apply map_length).
   pose proof (bspec_all path P name mc None [] [] None 0 Hsm fuel (fun f _ => call_sim_all path P f) allP (fun _ _ => Logic.I) (fun _ => Logic.I)
-                (ghost_all path P name mc None [] [] None 0 Hsm fuel (fun f _ => call_sim_all path P f)) p b0 [] 0 false None 0 0 0 fuel 0 a0 gP env0 s0 B' rets
+                (ghost_all path P name mc None [] None 0 Hsm fuel (fun f _ => call_sim_all path P f)) p b0 [] 0 false None 0 0 0 fuel 0 a0 gP env0 s0 B' rets
                 (le_n _) Hk ltac:(split; [intros x _; cbn; split; [congruence|intros []]|intros x []]) Hinst) as H.
   fold its in H. rewrite Hlits in H.
   specialize (H ltac:(apply items_at_strip; [exact Hits|]; exact (code_at_embed [] cbm [ret_mod]))
